@@ -650,6 +650,9 @@ func init() {
 				add(link, envWith(env, "GIT_DIR=../../.git", "PWD="+link), sizerBin(), sargs...)
 				add(link, envWith(env, "PWD="+link), sizerBin(), sargs...)
 			}
+			// git made talkative on stderr by the caller (GIT_TRACE): the answers git-sizer reads from git's stdout
+			// must not change (seeded change C10k read the `shallow` path with CombinedOutput)
+			add(w, envWith(env, "GIT_TRACE=1"), sizerBin(), sargs...)
 			if in[3] != "-" {
 				// the caller's environment names the graft file explicitly
 				add(w, envWith(env, "GIT_GRAFT_FILE="+filepath.Join(rr.dir, "info", "grafts")), sizerBin(), sargs...)
@@ -679,7 +682,41 @@ func init() {
 					wtHead = "0"
 				}
 			}
-			return []string{"ran", strings.Join(codes, ","), strings.Join(hashes, ","), first, wc, wtHead}
+			// a ROOT argument that makes git OPEN a commit which has a replacement or a graft (`X^{tree}`, `X^`):
+			// it must resolve in the real object graph, like everything else (seeded change C13k resolved ROOTs
+			// without --no-replace-objects / GIT_GRAFT_FILE)
+			rootReal := "-"
+			if in[6] != "1" {
+				nargs := []string{"--json", "--json-version=1", "--no-progress", "--names=none"}
+				check := func(expr string, real int) {
+					o1, _, c1 := runCmd(w, env, nil, sizerBin(), append(append([]string{}, nargs...), expr)...)
+					o2, _, c2 := runCmd(w, env, nil, sizerBin(), append(append([]string{}, nargs...), rr.oids[real])...)
+					if c1 == c2 && bytes.Equal(o1, o2) {
+						if rootReal == "-" {
+							rootReal = "1"
+						}
+					} else {
+						rootReal = "0"
+					}
+				}
+				for _, rf := range refs {
+					kv := strings.SplitN(rf, "=", 2)
+					if strings.HasPrefix(kv[0], "refs/replace/#") {
+						a, _ := strconv.Atoi(strings.TrimPrefix(kv[0], "refs/replace/#"))
+						if a < len(objs) && objs[a].kind == 'c' {
+							check(rr.oids[a]+"^{tree}", objs[a].tree)
+						}
+					}
+				}
+				for _, line := range splitOrNil(in[3], ",") {
+					p := strings.SplitN(line, ">", 2)
+					a, _ := strconv.Atoi(p[0])
+					if a < len(objs) && objs[a].kind == 'c' && len(objs[a].parents) > 0 {
+						check(rr.oids[a]+"^", objs[a].parents[0])
+					}
+				}
+			}
+			return []string{"ran", strings.Join(codes, ","), strings.Join(hashes, ","), first, wc, wtHead, rootReal}
 		},
 		class: func(in, res []string) string {
 			c := "plain"
@@ -762,7 +799,23 @@ func init() {
 				}
 				format = []string{"table", "json2"}[r.n(2)]
 			}
-			if r.n(12) == 0 {
+			if i%64 == 13 {
+				// thousands of references with long names (a `for-each-ref` listing far above one pipe buffer) and, in
+				// exec, a hundred and fifty regular-expression refgroups that make the consumer of that listing slow: every
+				// reference must be seen on every run (seeded change C17k bounded the wait for the consumer: WaitDelay)
+				objs = []gObj{{kind: 'b', size: 20}, {kind: 't', entries: []gEntry{{0o100644, []byte("f"), 0}}}, {kind: 'c', tree: 1, pad: 5}}
+				times = []int64{1600000000, 1600000000, 1600000000}
+				objs = realSizes(objs, times)
+				refs = nil
+				for k := 0; k < 1500; k++ {
+					refs = append(refs, fmt.Sprintf("refs/heads/topic-with-a-rather-long-name-%04d=2", k))
+				}
+				args, roots = nil, nil
+				for range refs {
+					roots = append(roots, 2)
+				}
+				format = "json1"
+			} else if r.n(12) == 0 {
 				objs, times, refs = bigTreeRepo(r)
 				objs = realSizes(objs, times)
 				args, roots = nil, nil
@@ -788,7 +841,16 @@ func init() {
 			defer rr.cleanup()
 			w := filepath.Dir(rr.dir)
 			os.WriteFile(filepath.Join(w, "untracked.txt"), []byte("work tree file\n"), 0o644)
-			if len(objs)%3 == 0 {
+			if len(refs) >= 1500 {
+				var b strings.Builder
+				for k := 0; k < 150; k++ {
+					fmt.Fprintf(&b, "[refgroup \"g%03d\"]\n\tincludeRegexp = refs/heads/.*-.*%d.*\n", k, k)
+				}
+				if f, err := os.OpenFile(filepath.Join(rr.dir, "config"), os.O_APPEND|os.O_WRONLY, 0o644); err == nil {
+					f.WriteString(b.String())
+					f.Close()
+				}
+			} else if len(objs)%3 == 0 {
 				// eight sibling refgroups defined in the repository's gitconfig, each matching every reference: their
 				// rows appear in the order of first mention, on every run (seeded change C17m collected them in a map)
 				var b strings.Builder
